@@ -47,6 +47,16 @@ func (c *Crew) NewTimersSpec() *core.Spec {
 		return c.timers.State().Bs
 	}
 
+	// problem makes the bindings after a request that could not be
+	// carried out: the pending timers and the complaint - without
+	// "?id", "?in" and "?msg", which would otherwise stay bound, so
+	// that back at "start" only a request with the same id (and
+	// delay and message) would match and every other request would
+	// be ignored from then on.
+	problem := func(bs match.Bindings, msg string) match.Bindings {
+		return onlyTimers(bs).Extend("error", msg)
+	}
+
 	spec := &core.Spec{
 		Name: "timers",
 		Doc:  "A machine that makes in-memory timers that send messages.",
@@ -73,35 +83,35 @@ func (c *Crew) NewTimersSpec() *core.Spec {
 					F: func(ctx context.Context, bs match.Bindings, props core.StepProps) (*core.Execution, error) {
 						x, have := bs["?in"]
 						if !have {
-							return core.NewExecution(bs.Extend("error", "no in")), nil
+							return core.NewExecution(problem(bs, "no in")), nil
 						}
 						in, is := x.(string)
 						if !is {
-							return core.NewExecution(bs.Extend("error", fmt.Sprintf("non-string in: %T %#v", x, x))), nil
+							return core.NewExecution(problem(bs, fmt.Sprintf("non-string in: %T %#v", x, x))), nil
 						}
 
 						d, err := time.ParseDuration(in)
 						if err != nil {
 							msg := fmt.Sprintf("bad in '%s': %v", in, err)
-							return core.NewExecution(bs.Extend("error", msg)), nil
+							return core.NewExecution(problem(bs, msg)), nil
 						}
 
 						x, have = bs["?id"]
 						if !have {
-							return core.NewExecution(bs.Extend("error", "no id")), nil
+							return core.NewExecution(problem(bs, "no id")), nil
 						}
 						id, is := x.(string)
 						if !is {
-							return core.NewExecution(bs.Extend("error", fmt.Sprintf("non-string id: %T %#v", x, x))), nil
+							return core.NewExecution(problem(bs, fmt.Sprintf("non-string id: %T %#v", x, x))), nil
 						}
 
 						msg, have := bs["?msg"]
 						if !have {
-							return core.NewExecution(bs.Extend("error", "no message")), nil
+							return core.NewExecution(problem(bs, "no message")), nil
 						}
 
 						if err = c.timers.Add(ctx, id, msg, d); err != nil {
-							return core.NewExecution(bs.Extend("error", err.Error())), nil
+							return core.NewExecution(problem(bs, err.Error())), nil
 						}
 
 						c.timers.changed()
@@ -124,15 +134,15 @@ func (c *Crew) NewTimersSpec() *core.Spec {
 					F: func(ctx context.Context, bs match.Bindings, props core.StepProps) (*core.Execution, error) {
 						x, have := bs["?id"]
 						if !have {
-							return core.NewExecution(bs.Extend("error", "no id")), nil
+							return core.NewExecution(problem(bs, "no id")), nil
 						}
 						id, is := x.(string)
 						if !is {
-							return core.NewExecution(bs.Extend("error", fmt.Sprintf("non-string id: %T %#v", x, x))), nil
+							return core.NewExecution(problem(bs, fmt.Sprintf("non-string id: %T %#v", x, x))), nil
 						}
 
 						if err := c.timers.Cancel(ctx, id); err != nil {
-							return core.NewExecution(bs.Extend("error", err.Error())), nil
+							return core.NewExecution(problem(bs, err.Error())), nil
 						}
 
 						c.timers.changed()
